@@ -1348,6 +1348,211 @@ Proof.
       specialize (S (HO l' A A2)). exact S.
 Qed.
 
+(* ---- what was produced so far is a prefix of the content of an accepted frame ---- *)
+Lemma blocks_prefix d maxb : forall F acc bs c r,
+  blocks bdec skip F d maxb dict acc bs = Some (c, r) -> exists y, c = acc ++ y.
+Proof.
+  induction F as [|F IH]; intros acc bs c r H; [discriminate H|]. cbn [blocks] in H.
+  destruct (take 4 bs) as [[szb r0]|]; [|discriminate H].
+  destruct (le_val szb =? 0).
+  - assert (G : forall rest, match f_csize d with
+                             | Some n => if (n =? 0) || (n =? Z.of_nat (length acc)) then Some (acc, rest) else None
+                             | None => Some (acc, rest) end = Some (c, r) -> c = acc).
+    { intros rest X. destruct (f_csize d) as [n|].
+      - destruct ((n =? 0) || (n =? Z.of_nat (length acc))); [|discriminate X]. inversion X; reflexivity.
+      - inversion X; reflexivity. }
+    exists []. rewrite app_nil_r.
+    destruct (f_ccrc d).
+    + destruct (take 4 r0) as [[cb r1]|]; [|discriminate H].
+      destruct (skip || (le_val cb =? xxh32 0 acc)); [|discriminate H]. eapply G; eauto.
+    + eapply G; eauto.
+  - destruct (maxb <? le_val szb mod 2147483648); [discriminate H|].
+    destruct (take (Z.to_nat (le_val szb mod 2147483648)) r0) as [[data r1]|]; [|discriminate H].
+    assert (G : forall rest,
+       (let hist := if f_indep d then dict else lastn 65536 (dict ++ acc) in
+        let content := if 2147483648 <=? le_val szb then Some data else bdec hist data in
+        match content with
+        | Some c0 => if maxb <? Z.of_nat (length c0) then None else blocks bdec skip F d maxb dict (acc ++ c0) rest
+        | None => None end) = Some (c, r) -> exists y, c = acc ++ y).
+    { intros rest. cbv zeta.
+      destruct (if 2147483648 <=? le_val szb then Some data else bdec (if f_indep d then dict else lastn 65536 (dict ++ acc)) data) as [c0|];
+        [|discriminate].
+      destruct (maxb <? Z.of_nat (length c0)); [discriminate|]. intro X.
+      destruct (IH _ _ _ _ X) as [y Hy]. exists (c0 ++ y). rewrite Hy, app_assoc. reflexivity. }
+    destruct (f_bcrc d).
+    + destruct (take 4 r1) as [[cb r2]|]; [|discriminate H].
+      destruct (skip || (le_val cb =? xxh32 0 data)); [|discriminate H]. eapply G; eauto.
+    + eapply G; eauto.
+Qed.
+Lemma E_header_prefix d maxb acc bs c r : E_header bdec skip d maxb dict acc bs (c, r) -> exists y, c = acc ++ y.
+Proof. intros (F & H). eapply blocks_prefix; eauto. Qed.
+Lemma E_after_prefix d maxb acc c0 bs c r : E_after bdec skip d maxb dict acc c0 bs (c, r) -> exists y, c = (acc ++ c0) ++ y.
+Proof. intros (_ & H). eapply E_header_prefix; eauto. Qed.
+Lemma E_bcrc_prefix d maxb acc data c0 bs c r :
+  E_bcrc bdec skip d maxb dict acc data c0 bs (c, r) -> exists y, c = (acc ++ c0) ++ y.
+Proof.
+  unfold E_bcrc. destruct (f_bcrc d).
+  - intros (cb & r2 & _ & _ & H). eapply E_after_prefix; eauto.
+  - apply E_after_prefix.
+Qed.
+Lemma E_suffix_eq d O bs c r : E_suffix skip d O bs (c, r) -> c = O.
+Proof.
+  unfold E_suffix, fin_ok. destruct (f_ccrc d).
+  - intros (cb & r1 & _ & _ & _ & H). inversion H; reflexivity.
+  - intros (_ & H). inversion H; reflexivity.
+Qed.
+
+Lemma CInv_prefix p O s g c r : CInv p O s -> SpecGoal p g (c, r) -> exists y, c = O ++ y.
+Proof.
+  intros C G.
+  destruct C as [Hst -> -> Hrem Hh Hsk | Hst -> Hrem Hh Hsk Hp Hbp | d maxb Hst -> B HK | d maxb Hst B HK
+                | d maxb t Hst B Ht Hbt HK | d maxb acc0 data1 Hst -> B Htg Hm Hx HK
+                | d maxb acc0 data t Hst -> B EB Hd Hx Ht Hbt HK | d maxb n Hst B Htg Hn HK
+                | d maxb n t Hst B Htg Hn Ht Hbt HK | d maxb acc0 Hst HOe B Hm HK | d maxb Hst B HK
+                | d maxb t Hst B EC ER Ht Hbt HK | Hst -> Hp4 Hmg];
+    try (exists c; reflexivity); apply (proj2 HK) in G.
+  - eapply E_header_prefix; eauto.
+  - eapply E_header_prefix; eauto.
+  - destruct G as (data2 & r1 & _ & E). destruct (E_bcrc_prefix _ _ _ _ _ _ _ _ E) as [y Hy].
+    exists (data2 ++ y). rewrite Hy, <- !app_assoc. reflexivity.
+  - destruct G as (cb & r2 & _ & _ & E). eapply E_after_prefix; eauto.
+  - destruct G as (data & r1 & c0 & _ & _ & E). destruct (E_bcrc_prefix _ _ _ _ _ _ _ _ E) as [y Hy].
+    exists (c0 ++ y). rewrite Hy, <- !app_assoc. reflexivity.
+  - destruct G as (data & r1 & c0 & _ & _ & E). destruct (E_bcrc_prefix _ _ _ _ _ _ _ _ E) as [y Hy].
+    exists (c0 ++ y). rewrite Hy, <- !app_assoc. reflexivity.
+  - destruct (E_header_prefix _ _ _ _ _ _ G) as [y Hy].
+    exists (zdrop (d_tmpOutStart s) (d_tmpOut s) ++ y). rewrite Hy, HOe, <- !app_assoc.
+    rewrite (app_assoc (ztake _ _)), ztake_zdrop_app. reflexivity.
+  - exists []. rewrite app_nil_r. eapply E_suffix_eq; eauto.
+  - exists []. rewrite app_nil_r. eapply E_suffix_eq; eauto.
+Qed.
+
+(* ---- how much input the specification still needs at each position ---- *)
+Lemma take_short : forall n (l : list byte), (length l < n)%nat -> take n l = None.
+Proof.
+  induction n as [|n IH]; intros l H; [lia|]. destruct l as [|x l]; [reflexivity|]. simpl in *.
+  rewrite IH by lia. reflexivity.
+Qed.
+Lemma take_zlen n (l a b : list byte) : take n l = Some (a, b) -> zlen l = Z.of_nat n + zlen b.
+Proof. intro T. destruct (take_length _ _ _ _ T) as [_ L]. unfold zlen. lia. Qed.
+
+Lemma need_header d maxb acc bs res : E_header bdec skip d maxb dict acc bs res -> 4 <= zlen bs.
+Proof.
+  intros (F & H). destruct F as [|F]; [discriminate H|]. cbn [blocks] in H.
+  destruct (take 4 bs) as [[szb r]|] eqn:T; [|discriminate H]. rewrite (take_zlen _ _ _ _ T). pose proof (zlen_nonneg r). lia.
+Qed.
+Lemma need_bcrc d maxb acc data c bs res :
+  E_bcrc bdec skip d maxb dict acc data c bs res -> crc4 (f_bcrc d) + 4 <= zlen bs.
+Proof.
+  unfold E_bcrc, crc4. destruct (f_bcrc d).
+  - intros (cb & r2 & T & _ & _ & H). rewrite (take_zlen _ _ _ _ T). apply need_header in H. lia.
+  - intros (_ & H). apply need_header in H. lia.
+Qed.
+Lemma need_comp d maxb acc n bs res :
+  0 <= n -> X_comp bdec skip d maxb dict acc n bs res -> n + crc4 (f_bcrc d) + 4 <= zlen bs.
+Proof. intros Hn (data & r1 & c & T & _ & E). rewrite (take_zlen _ _ _ _ T). apply need_bcrc in E. lia. Qed.
+Lemma need_EC d maxb acc0 data1 m g res : 0 <= m -> E_C d maxb acc0 data1 m g res -> m + crc4 (f_bcrc d) + 4 <= zlen g.
+Proof. intros Hm (data2 & r1 & T & E). rewrite (take_zlen _ _ _ _ T). apply need_bcrc in E. lia. Qed.
+Lemma need_EB d maxb acc0 data t g res : E_B d maxb acc0 data t g res -> 8 <= zlen (t ++ g).
+Proof. intros (cb & r2 & T & _ & _ & H). rewrite (take_zlen _ _ _ _ T). apply need_header in H. lia. Qed.
+Lemma need_suffix d O bs res : f_ccrc d = true -> E_suffix skip d O bs res -> 4 <= zlen bs.
+Proof.
+  intros EC. unfold E_suffix. rewrite EC. intros (cb & r1 & T & _). rewrite (take_zlen _ _ _ _ T).
+  pose proof (zlen_nonneg r1). lia.
+Qed.
+
+Lemma nth_byte_range (l : list byte) k x : bytes_ok l = true -> nth_error l k = Some x -> 0 <= x < 256.
+Proof.
+  intros Hb H. apply nth_error_In in H. unfold bytes_ok in Hb. rewrite forallb_forall in Hb.
+  apply byte_range. apply Hb. exact H.
+Qed.
+
+(* an accepted frame begins with the LZ4 magic number and contains its whole header *)
+Lemma accepted_magic p res : frame_decode bdec skip dict p = Some res -> rd32 p = FD_MAGICNUMBER.
+Proof.
+  unfold frame_decode. intro HV.
+  destruct (take 4 p) as [[mg r0]|] eqn:T; [|discriminate HV].
+  destruct (le_val mg =? MAGIC) eqn:EM; [|discriminate HV]. apply Z.eqb_eq in EM.
+  destruct (take_length _ _ _ _ T) as [L4 _]. pose proof (take_app_split _ _ _ _ T) as Hd.
+  unfold rd32. rewrite Hd. unfold ztake. rewrite firstn_app. replace (Z.to_nat 4 - length mg)%nat with 0%nat by lia.
+  rewrite firstn_O, app_nil_r, firstn_all2 by lia. rewrite EM. reflexivity.
+Qed.
+Lemma frame_needs_header p res :
+  frame_decode bdec skip dict p = Some res ->
+  exists flg bd i bc csz cc did id,
+    nth_error p 4 = Some flg /\ nth_error p 5 = Some bd /\
+    spec_flags flg bd = Some (i, bc, csz, cc, did, id) /\
+    7 + (if csz =? 1 then 8 else 0) + (if did =? 1 then 4 else 0) <= zlen p.
+Proof.
+  unfold frame_decode. intro H.
+  destruct (take 4 p) as [[mg r]|] eqn:T; [|discriminate H].
+  destruct (le_val mg =? MAGIC); [|discriminate H].
+  destruct (parse_desc r) as [[d r1]|] eqn:PD; [|discriminate H]. clear H.
+  destruct (take_length _ _ _ _ T) as [L4 _]. pose proof (take_app_split _ _ _ _ T) as Hp.
+  destruct mg as [|m0 [|m1 [|m2 [|m3 [|]]]]]; try (simpl in L4; lia).
+  destruct r as [|flg [|bd r0]]; try discriminate PD. subst p.
+  rewrite parse_desc_factor in PD.
+  destruct (spec_flags flg bd) as [[[[[[indep bcrc] csz] ccrc] did] bsid]|] eqn:SF; [|discriminate PD].
+  destruct (take _ r0) as [[csb x1]|] eqn:T1; [|discriminate PD].
+  destruct (take _ x1) as [[dib x2]|] eqn:T2; [|discriminate PD].
+  destruct x2 as [|hc x3]; [discriminate PD|].
+  exists flg, bd, indep, bcrc, csz, ccrc, did, bsid. split; [reflexivity|]. split; [reflexivity|]. split; [exact SF|].
+  destruct (take_length _ _ _ _ T1) as [_ L1]. destruct (take_length _ _ _ _ T2) as [_ L2].
+  unfold zlen. simpl length in *. destruct (csz =? 1); destruct (did =? 1); lia.
+Qed.
+
+Lemma hdr_incomplete s p res :
+  d_stage s = StoreFrameHeader -> wf s -> pre (d_header s) (d_tmpInSize s) = p -> bytes_ok p = true ->
+  frame_decode bdec skip dict p = Some res -> False.
+Proof.
+  intros Hst (_ & _ & Hi) Hp Hb HF. unfold stage_inv in Hi. rewrite Hst in Hi. destruct Hi as (I1 & I2 & Hx).
+  assert (Hlen : zlen p = d_tmpInSize s) by (rewrite <- Hp; apply pre_length; lia).
+  destruct (frame_needs_header _ _ HF) as (flg & bd & i & bc & csz & cc & did & id & N4 & N5 & SF & L).
+  destruct Hx as [Hx|(X0 & X1 & X2 & FLG & bm & bc' & cs & cc' & di & N4' & EF & FS)].
+  - unfold FD_minFHSize in Hx. destruct (csz =? 1); destruct (did =? 1); lia.
+  - assert (Hph : p = d_header s) by (rewrite <- Hp; apply pre_full; exact X0).
+    rewrite <- Hph in N4'. rewrite N4 in N4'. inversion N4'; subst FLG.
+    pose proof (flags_equiv flg bd (nth_byte_range _ _ _ Hb N4) (nth_byte_range _ _ _ Hb N5)) as FE.
+    rewrite SF in FE. unfold model_flags in FE. rewrite EF in FE.
+    destruct (bd_decode bd) as [e|id']; [discriminate FE|]. inversion FE; subst.
+    pose proof (spec_flags_range _ _ _ _ _ _ _ _ SF) as (_ & _ & Hcs & _ & Hdi & _).
+    unfold fh_size, FD_minFHSize in FS.
+    destruct Hcs as [-> | ->]; destruct Hdi as [-> | ->]; cbn in FS, L; lia.
+Qed.
+
+(* the input is exhausted and what was consumed is a whole accepted frame: only the end of the
+   frame (no content checksum) can be left to do *)
+Lemma empty_input p O s res :
+  CInv p O s -> wf s -> SpecGoal p [] res ->
+  exists d maxb, d_stage s = GetSuffix /\ binv skip d maxb dict O s /\ f_ccrc d = false /\ csize_ok d O.
+Proof.
+  intros C Hwf G'. assert (Hwf' := Hwf). destruct Hwf' as (_ & _ & Hi). unfold stage_inv in Hi.
+  assert (G : frame_decode bdec skip dict p = Some res) by (unfold SpecGoal in G'; rewrite app_nil_r in G'; exact G').
+  assert (Z0 : zlen (@nil byte) = 0) by reflexivity.
+  assert (Hcr : forall b, 0 <= crc4 b) by (intro b; unfold crc4; destruct b; lia).
+  destruct C as [Hst -> -> Hrem Hh Hsk | Hst -> Hrem Hh Hsk Hp Hbp | d maxb Hst -> B HK | d maxb Hst B HK
+                | d maxb t Hst B Ht Hbt HK | d maxb acc0 data1 Hst -> B Htg Hm Hx HK
+                | d maxb acc0 data t Hst -> B EB Hd Hx Ht Hbt HK | d maxb n Hst B Htg Hn HK
+                | d maxb n t Hst B Htg Hn Ht Hbt HK | d maxb acc0 Hst HOe B Hm HK | d maxb Hst B HK
+                | d maxb t Hst B EC ER Ht Hbt HK | Hst -> Hp4 Hmg]; try rewrite Hst in Hi;
+    try (apply (proj2 HK) in G').
+  - exfalso. unfold frame_decode in G. simpl in G. discriminate G.
+  - exfalso. eapply hdr_incomplete; eauto.
+  - exfalso. apply need_header in G'. lia.
+  - exfalso. apply need_header in G'. lia.
+  - exfalso. apply need_header in G'. rewrite app_nil_r, <- Ht, pre_length in G' by lia. unfold FD_BHSize in Hi. lia.
+  - exfalso. apply need_EC in G'; [|exact Htg]. specialize (Hcr (f_bcrc d)). lia.
+  - exfalso. apply need_EB in G'. rewrite app_nil_r, <- Ht, pre_length in G' by lia. lia.
+  - exfalso. apply need_comp in G'; [|lia]. specialize (Hcr (f_bcrc d)). lia.
+  - exfalso. apply need_comp in G'; [|lia]. rewrite app_nil_r, <- Ht, pre_length in G' by lia. lia.
+  - exfalso. apply need_header in G'. lia.
+  - exists d, maxb. split; [exact Hst|]. split; [exact B|]. split.
+    + destruct (f_ccrc d) eqn:EC; [|reflexivity]. exfalso. apply (need_suffix _ _ _ _ EC) in G'. lia.
+    + eapply E_suffix_csize; eauto.
+  - exfalso. apply (need_suffix _ _ _ _ EC) in G'. rewrite app_nil_r, <- Ht, pre_length in G' by lia. lia.
+  - exfalso. rewrite (accepted_magic _ _ G) in Hmg. exact (magic_not_skippable Hmg).
+Qed.
+
 (* ---- one call of LZ4F_decompress ---- *)
 (* between two calls: inside a frame, or at the start of a frame (skipChecksum not yet raised) *)
 Definition at_start (s : dstate) : Prop :=
@@ -1427,6 +1632,28 @@ Proof.
     destruct C; try congruence; try (rewrite St in *; discriminate).
     apply C_start; ss; auto.
   - intros _. exfalso. apply NF; [|reflexivity]. unfold mu, call_fuel, l0; ss. pose proof (rank_range (d_stage s1)). lia.
+Qed.
+
+(* no input left and what was consumed is a whole accepted frame: the call ends the frame *)
+Lemma call_empty s cap o p O res :
+  o_skip o = skip -> wf s -> BInv p O s -> 0 <= cap -> SpecGoal p [] res ->
+  r_ret (snd (decompress bdec s [] cap o)) = 0.
+Proof.
+  intros Hsk Hwf HB Hc G. unfold decompress. rewrite Hsk.
+  pose proof (CInv_enter _ _ _ HB) as C.
+  set (s1 := set_skip s (d_skip s || skip)) in *.
+  assert (W1 : wf s1) by (apply wf_set_skip; exact Hwf).
+  destruct (empty_input _ _ _ _ C W1 G) as (d & maxb & Hst & B & EC & CS).
+  pose proof (binv_flags _ _ _ _ _ _ B) as (F1 & F2 & F3).
+  replace (call_fuel []) with 16%nat by reflexivity. cbn [run]. unfold iter. cbn [l_s]. rewrite Hst.
+  unfold do_getSuffix. cbn [l_s l_src]. rewrite (csize_remaining _ _ _ _ B CS).
+  change (negb (0 =? 0)) with false. cbv iota. rewrite F2, EC. reflexivity.
+Qed.
+
+Lemma produced_out s src cap o :
+  r_produced (snd (decompress bdec s src cap o)) <= zlen (r_out (snd (decompress bdec s src cap o))).
+Proof.
+  unfold decompress. destruct (run bdec (call_fuel src) o _) as [l f]. destruct f; cbn; try apply zlen_nonneg. lia.
 Qed.
 End Chunk.
 
@@ -1585,6 +1812,66 @@ Proof.
     rewrite D1 in Hrd. rewrite rd32_app in Hrd by exact D6. rewrite Hrd in D7. exact (magic_not_skippable D7).
 Qed.
 
+(* ... and the calls do come to an end: every call that does not end the frame consumes or
+   produces at least one byte (no livelock), so |input| + |content| + 1 pieces always suffice *)
+Lemma drive_terminates : forall k s data ns caps acc pos p O content rest,
+  o_skip o = false -> o_dstnull o = false ->
+  wf s -> BInv bdec (o_skip o) dict p O s -> bytes_ok data = true ->
+  Forall (fun n => 1 <= n) ns -> Forall (fun c => 1 <= c) caps ->
+  frame_decode bdec (o_skip o) dict (p ++ data) = Some (content, rest) ->
+  (k <= length ns)%nat -> (k <= length caps)%nat ->
+  zlen data + (zlen content - zlen O) < Z.of_nat k ->
+  drive bdec o k s data ns caps acc pos <> VMore.
+Proof.
+  induction k as [|k IH]; intros s data ns caps acc pos p O content rest Hsk Hnull Hwf HB Hb Hns Hcaps HV Lns Lcaps HM.
+  - exfalso. pose proof (zlen_nonneg data).
+    assert (zlen O <= zlen content); [|lia].
+    destruct HB as [C|(_ & -> & _)]; [|apply zlen_nonneg].
+    destruct (CInv_prefix _ _ _ _ _ _ _ _ _ C HV) as [y ->]. rewrite zlen_app. pose proof (zlen_nonneg y). lia.
+  - destruct ns as [|n ns]; [simpl in Lns; lia|]. destruct caps as [|cap caps]; [simpl in Lcaps; lia|].
+    cbn [drive]. inversion Hcaps as [|c0 cs0 Hc1 Hcaps']; subst. inversion Hns as [|n0 ns0 Hn1 Hns']; subst.
+    assert (Hc : 0 <= cap) by lia.
+    destruct (bytes_ok_split n _ Hb) as [Hb1 Hb2].
+    assert (Hval : Valid bdec (o_skip o) dict p (ztake n data)).
+    { exists (zdrop n data), (content, rest). unfold SpecGoal. rewrite ztake_zdrop_app. exact HV. }
+    pose proof (zlen_nonneg data) as Hd0.
+    destruct (Z.eq_dec (zlen data) 0) as [Z0|Z0].
+    { (* no input left *)
+      assert (data = []) by (apply zlen0_nil; exact Z0). subst data.
+      assert (Hz : ztake n [] = []) by (unfold ztake; apply firstn_nil). rewrite Hz.
+      assert (G : SpecGoal bdec (o_skip o) dict p [] (content, rest)) by exact HV.
+      pose proof (call_empty bdec (o_skip o) dict s cap o p O _ eq_refl Hwf HB Hc G) as R0.
+      destruct (decompress bdec s [] cap o) as [s' r]. cbn [snd] in R0. rewrite R0. cbn. discriminate. }
+    assert (Hsrc1 : 1 <= zlen (ztake n data)).
+    { destruct (Z.le_gt_cases n (zlen data)); [rewrite zlen_ztake; lia|rewrite ztake_all; lia]. }
+    pose proof (call_chunk bdec (o_skip o) dict s (ztake n data) cap o p O eq_refl Hwf HB Hb1 Hc) as CC.
+    pose proof (decompress_ok bdec s (ztake n data) cap o Hwf Hc) as (_ & _ & _ & _ & _ & _ & PROG).
+    pose proof (produced_out bdec s (ztake n data) cap o) as PO.
+    specialize (PROG Hsrc1 Hc1 Hnull).
+    destruct (decompress bdec s (ztake n data) cap o) as [s' r]. cbn [fst snd] in CC, PROG, PO.
+    destruct (CC (or_intror Hval)) as [CCn CCp]. clear CC.
+    destruct (r_ret r <? 0) eqn:Eneg.
+    { exfalso. apply Z.ltb_lt in Eneg. destruct Hval as (R & res' & G). exact (CCn Eneg Hsk R res' G). }
+    apply Z.ltb_ge in Eneg.
+    destruct (r_ret r =? 0) eqn:E0; [discriminate|]. apply Z.eqb_neq in E0.
+    destruct (CCp Eneg) as (x & rest0 & C1 & C2 & C3 & C4).
+    replace (r_ret r =? 0) with false in C4 by (symmetry; apply Z.eqb_neq; exact E0).
+    assert (Hd : data = x ++ rest0 ++ zdrop n data).
+    { rewrite app_assoc, <- C1. symmetry. apply ztake_zdrop_app. }
+    assert (Hdrop : zdrop (r_consumed r) data = rest0 ++ zdrop n data).
+    { rewrite C2. rewrite Hd at 1. apply zdrop_app_exact. }
+    rewrite Hdrop.
+    assert (Hb' : bytes_ok (rest0 ++ zdrop n data) = true).
+    { rewrite Hd, bytes_ok_app in Hb. apply andb_prop in Hb. apply Hb. }
+    assert (HV' : frame_decode bdec (o_skip o) dict ((p ++ x) ++ rest0 ++ zdrop n data) = Some (content, rest)).
+    { rewrite <- app_assoc, <- Hd. exact HV. }
+    apply (IH s' _ ns caps _ _ (p ++ x) (O ++ r_out r) content rest Hsk Hnull C3 C4 Hb' Hns' Hcaps' HV');
+      [simpl in Lns; lia | simpl in Lcaps; lia |].
+    assert (Hlx : zlen data = zlen x + zlen (rest0 ++ zdrop n data)) by (rewrite Hd at 1; apply zlen_app).
+    rewrite (zlen_app O). pose proof (zlen_nonneg x). pose proof (zlen_nonneg (r_out r)).
+    destruct PROG as [P|[P|[P|P]]]; lia.
+Qed.
+
 (* Soundness under chunking.  From a context at the start of a frame (fresh, after a reset, or
    after a completed frame), whatever the pieces in which the input is offered and whatever the
    capacities: if the sequence of calls reports completion (a call returns 0), then
@@ -1610,4 +1897,41 @@ Proof.
     + rewrite D3, D1, zlen_app. pose proof (zlen_nonneg rest). lia.
     + rewrite D1, rd32_app by exact D6. exact D7.
 Qed.
+(* Chunking independence (skipChecksums off, non-NULL destination): a valid frame offered in ANY
+   pieces of >= 1 byte, with ANY capacities >= 1, is decoded to the specified content, and
+   |input| + |content| + 1 calls suffice. *)
+Theorem chunked_reaches : forall s data ns caps content rest,
+  o_skip o = false -> o_dstnull o = false ->
+  wf s -> d_stage s = GetFrameHeader -> d_remaining s = 0 -> d_hist s = dict -> d_skip s = false ->
+  bytes_ok data = true -> Forall (fun n => 1 <= n) ns -> Forall (fun c => 1 <= c) caps ->
+  frame_decode bdec false dict data = Some (content, rest) ->
+  let K := Z.to_nat (zlen data + zlen content + 1) in
+  (K <= length ns)%nat -> (K <= length caps)%nat ->
+  drive bdec o K s data ns caps [] 0 = VComplete content (zlen data - zlen rest).
+Proof.
+  intros s data ns caps content rest Hsk Hnull Hwf H1 H2 H3 H4 Hb Hns Hcaps HV K Lns Lcaps.
+  assert (Hcaps0 : Forall (fun c => 0 <= c) caps) by (eapply Forall_impl; [|exact Hcaps]; cbv beta; intros; lia).
+  destruct (chunked_complete K s data ns caps content rest Hsk Hwf H1 H2 H3 H4 Hb Hcaps0 HV) as [_ HC].
+  apply HC.
+  assert (HB : BInv bdec (o_skip o) dict [] [] s) by (right; unfold at_start; auto 10).
+  apply (drive_terminates K s data ns caps [] 0 [] [] content rest Hsk Hnull Hwf HB Hb Hns Hcaps); auto.
+  - rewrite Hsk. exact HV.
+  - pose proof (zlen_nonneg data). pose proof (zlen_nonneg content). unfold K. change (zlen []) with 0. lia.
+Qed.
 End Drive.
+
+(* the statement Properties_C08.C08_chunking_independent_full_statement, for skipChecksums off *)
+Theorem chunked_independent_noskip : forall bdec stable dstnull data ns caps content rest,
+  bytes_ok data = true ->
+  Forall (fun n => 1 <= n) ns -> Forall (fun c => 1 <= c) caps ->
+  frame_decode bdec false [] data = Some (content, rest) ->
+  (exists k, drive bdec (mkO stable false dstnull) k dctx_init data ns caps [] 0 <> VMore) ->
+  exists k, drive bdec (mkO stable false dstnull) k dctx_init data ns caps [] 0
+            = VComplete content (zlen data - zlen rest).
+Proof.
+  intros bdec stable dstnull data ns caps content rest Hb Hns Hcaps HV [k Hk]. exists k.
+  assert (Hcaps0 : Forall (fun c => 0 <= c) caps) by (eapply Forall_impl; [|exact Hcaps]; cbv beta; intros; lia).
+  destruct (chunked_complete bdec (mkO stable false dstnull) [] k dctx_init data ns caps content rest
+              eq_refl wf_init eq_refl eq_refl eq_refl eq_refl Hb Hcaps0 HV) as [_ HC].
+  exact (HC Hk).
+Qed.
